@@ -264,7 +264,7 @@ impl From<LspTokenType> for Option<SemanticToken> {
         token_type.map(|token_type| SemanticToken {
             delta_line: val.0.line as u32,
             delta_start: val.0.col as u32,
-            length: val.0.text.len() as u32,
+            length: val.0.text.encode_utf16().count() as u32,
             token_type,
             token_modifiers_bitset: 0,
         })
